@@ -593,6 +593,10 @@ PROPS["C05"] = {
 }
 
 def nt_c12(lhs, impl):
+    if lhs.startswith("pgpframes "):
+        d = _hexbytes(lhs.split(" ")[1])
+        t = impl.split(" ")
+        return ("pgpframes", d[0] >> 6 if d else -1, (d[0] & 3) if d and d[0] < 0xC0 else -1, t[0], min(int(t[1]), 9) if len(t) > 1 else 0)
     f = lhs.split(" ")
     g = f[f.index("G"):]
     if "M" in f:
@@ -604,7 +608,7 @@ def nt_c12(lhs, impl):
 PROPS["C12"] = {
     "modules": ["WhatIs.Props.C12"],
     "theorems": ["WhatIs.C12.reserialize_exact", "WhatIs.C12.parsed_length", "WhatIs.C12.fingerprint_rfc4880", "WhatIs.C12.kdf_witness",
-                 "WhatIs.C12.mpi_bits_declared"],
+                 "WhatIs.C12.mpi_bits_declared", "WhatIs.C12.frame_new", "WhatIs.C12.frame_old", "WhatIs.C12.frame_partial"],
     "facts": {},
     "nontrivial": nt_c12,
     "rule": "v4 keys written by the harness's OWN OpenPGP writer (own packet framing, own framing of signed data, signatures made with the "
@@ -762,7 +766,7 @@ PROPS["C08"] = {
                  "WhatIs.C08.b64_decoded_bounded", "WhatIs.C08.asn1_nodes_bounded", "WhatIs.C08.asn1_depth_bounded",
                  "WhatIs.C08.rpm_header_bounded", "WhatIs.C08.rpm_refused", "WhatIs.C08.rpm_overlap_witness",
                  "WhatIs.C08.jks_stops_on_truncation", "WhatIs.C08.jks_field_within", "WhatIs.C08.jks_walk_steps_bounded",
-                 "WhatIs.C08.jks_stuck_witness"],
+                 "WhatIs.C08.jks_stuck_witness", "WhatIs.C08.pgp_bodies_bounded", "WhatIs.C08.pgp_framing_terminates"],
     "facts": {"scan.makes": SCAN_MAKES, "limits.maxReadSize": 128000000, "limits.inspectReadsThroughLimit": True,
               "ssh1.boundsMPInt": True, "ssh1.boundsString": True, "rpm.prechecked": True, "jks.prechecked": True,
               "jks.stopsOnTruncation": True},
